@@ -24,21 +24,39 @@
 EXTENDS Scope, Json
 
 CONSTANTS MaxCost,      \* bound on the number of scope events
-          Directed      \* TRUE: well-scoped structures only
+          Directed,     \* TRUE: well-scoped structures only
+          Canonical     \* (with Directed) TRUE: one structure of every class of structures that are equal up to
+                        \* a permutation of Names -- along the derivation a binder takes a name introduced
+                        \* before or the LEAST name not yet introduced
 
 VARIABLES f,            \* [params, body], possibly with open positions
-          left          \* MaxCost - cost of f
+          left,         \* MaxCost - cost of f
+          used          \* the names introduced so far (Canonical; otherwise {})
 
 Hole(env) == [k |-> "hole", env |-> env]
 More(env) == [k |-> "more", env |-> env]
 None      == [k |-> "none"]
 
 Ext(env, xs) == IF Directed THEN env \cup (xs \ {Wild}) ELSE {}
-BindN(env)   == IF Directed THEN Names \ env ELSE Names
+Ord == <<"a", "b", "c", "d", "e">>
+ASSUME Names \subseteq { Ord[i] : i \in DOMAIN Ord }
+ASSUME Canonical => Directed
+LeastFresh(u) == LET c == { i \in DOMAIN Ord : Ord[i] \in Names \ u }
+                 IN IF c = {} THEN {} ELSE { Ord[CHOOSE i \in c : \A j \in c : i <= j] }
+\* the names a binder under env may take, u = the names introduced so far
+BindN(env, u) == IF ~Directed THEN Names
+                 ELSE IF Canonical THEN (u \ env) \cup LeastFresh(u \cup env)
+                 ELSE Names \ env
 UseN(env)    == IF Directed THEN env ELSE Names
+\* pairs of binders chosen together (the second sees the first as introduced)
+Pairs(env, u, distinct, wild2) ==
+  { q \in UNION { { <<x, y>> : y \in BindN(env, u \cup {x}) \cup (IF wild2 THEN {Wild} ELSE {}) } : x \in BindN(env, u) } :
+      distinct => q[1] # q[2] }
 
 \* the expression children of a node, in the order in which they are filled
-Kids(t) == CASE t.k = "lam" -> <<"body", "arg">>
+Kids(t) == CASE t.k = "lam0" -> <<"body">>
+             [] t.k = "lam" -> <<"body", "arg">>
+             [] t.k = "lam2" -> <<"body", "a1", "a2">>
              [] t.k = "mat" -> <<"scrut", "ba", "bb">>
              [] t.k \in {"mor", "mor3"} -> <<"scrut", "body">>
              [] t.k = "ifl" -> <<"scrut", "th", "el">>
@@ -76,48 +94,58 @@ PlugKids(t, ks, i, new) == IF Open(t[ks[i]]).k # "none" THEN [t EXCEPT ![ks[i]] 
 
 \* the items of a block under env (their initialisers are evaluated outside the item's own bindings)
 \* pattern pairs: two distinct names, or a name and a wildcard
-ItemShapes(env) ==
-  { [k |-> "let", x |-> x, init |-> Hole(env)] : x \in BindN(env) \cup {Wild} }
+ItemShapes(env, u) ==
+  { [k |-> "let", x |-> x, init |-> Hole(env)] : x \in BindN(env, u) \cup {Wild} }
   \cup { [k |-> kk, x |-> xy[1], y |-> xy[2], i1 |-> Hole(env), i2 |-> Hole(env)] :
-           kk \in {"ltup", "lstr"},
-           xy \in { q \in BindN(env) \X (BindN(env) \cup {Wild}) : q[1] # q[2] } }
-  \cup { [k |-> "lstr", x |-> Wild, y |-> y, i1 |-> Hole(env), i2 |-> Hole(env)] : y \in BindN(env) }
+           kk \in {"ltup", "lstr"}, xy \in Pairs(env, u, TRUE, TRUE) }
+  \cup { [k |-> "lstr", x |-> Wild, y |-> y, i1 |-> Hole(env), i2 |-> Hole(env)] : y \in BindN(env, u) }
 ItemBinds(it) == IF it.k = "let" THEN {it.x} ELSE {it.x, it.y}
 
-\* what an expression hole under env can become with budget b: [cost, expression]
-ExprChoices(env, b) ==
-  { <<0, Lit>> }
+\* what an expression hole under env can become with budget b: [cost, expression, names it binds]
+ExprChoices(env, u, b) ==
+  { <<0, Lit, {}>> }
   \cup (IF b < 1 THEN {} ELSE
-        { <<1, Use(x)>> : x \in UseN(env) }
-        \cup { <<1, [k |-> "lam", x |-> x, body |-> Hole(Ext(env, {x})), arg |-> Hole(env)]>> : x \in BindN(env) }
-        \cup { <<1, [k |-> "mat", scrut |-> Hole(env), x |-> x, ba |-> Hole(Ext(env, {x})),
-                                   y |-> y, bb |-> Hole(Ext(env, {y}))]>> : x \in BindN(env), y \in BindN(env) }
-        \cup { <<1, [k |-> "mor", scrut |-> Hole(env), x |-> x, body |-> Hole(Ext(env, {x}))]>> : x \in BindN(env) }
-        \cup { <<1, [k |-> "mor3", scrut |-> Hole(env), x |-> x, body |-> Hole(Ext(env, {x}))]>> : x \in BindN(env) }
-        \cup { <<1, [k |-> "ifl", x |-> x, scrut |-> Hole(env), th |-> Hole(Ext(env, {x})), el |-> Hole(env)]>> :
-                 x \in BindN(env) })
+        { <<1, Use(x), {}>> : x \in UseN(env) }
+        \cup { <<1, [k |-> "lam0", body |-> Hole(env)], {}>> }
+        \cup { <<1, [k |-> "lam", x |-> x, body |-> Hole(Ext(env, {x})), arg |-> Hole(env)], {x}>> : x \in BindN(env, u) }
+        \* (two distinct parameters, like the pattern pairs)
+        \cup { <<1, [k |-> "lam2", x |-> xy[1], y |-> xy[2], body |-> Hole(Ext(env, {xy[1], xy[2]})),
+                                    a1 |-> Hole(env), a2 |-> Hole(env)], {xy[1], xy[2]}>> : xy \in Pairs(env, u, TRUE, FALSE) }
+        \cup { <<1, [k |-> "mat", scrut |-> Hole(env), x |-> xy[1], ba |-> Hole(Ext(env, {xy[1]})),
+                                   y |-> xy[2], bb |-> Hole(Ext(env, {xy[2]}))], {xy[1], xy[2]}>> : xy \in Pairs(env, u, FALSE, FALSE) }
+        \cup { <<1, [k |-> "mor", scrut |-> Hole(env), x |-> x, body |-> Hole(Ext(env, {x}))], {x}>> : x \in BindN(env, u) }
+        \cup { <<1, [k |-> "mor3", scrut |-> Hole(env), x |-> x, body |-> Hole(Ext(env, {x}))], {x}>> : x \in BindN(env, u) }
+        \cup { <<1, [k |-> "ifl", x |-> x, scrut |-> Hole(env), th |-> Hole(Ext(env, {x})), el |-> Hole(env)], {x}>> :
+                 x \in BindN(env, u) })
   \* a nested block has at least one item
   \cup (IF b < 2 THEN {} ELSE
-        { <<2, [k |-> "blk", items |-> <<it>>, fin |-> More(Ext(env, ItemBinds(it)))]>> : it \in ItemShapes(env) })
+        { <<2, [k |-> "blk", items |-> <<it>>, fin |-> More(Ext(env, ItemBinds(it)))], ItemBinds(it) \ {Wild}>> :
+            it \in ItemShapes(env, u) })
 
-\* [cost, replacement] for the open position o
-Choices(o, b) ==
-  IF o.k = "hole" THEN { <<c[1], [kind |-> "expr", e |-> c[2]]>> : c \in ExprChoices(o.env, b) }
-  ELSE { <<0, [kind |-> "expr", e |-> Hole(o.env)]>> }
+\* [cost, replacement, names it binds] for the open position o
+Choices(o, u, b) ==
+  IF o.k = "hole" THEN { <<c[1], [kind |-> "expr", e |-> c[2]], c[3]>> : c \in ExprChoices(o.env, u, b) }
+  ELSE { <<0, [kind |-> "expr", e |-> Hole(o.env)], {}>> }
        \cup (IF b < 1 THEN {} ELSE
-             { <<1, [kind |-> "item", it |-> it, more |-> More(Ext(o.env, ItemBinds(it)))]>> : it \in ItemShapes(o.env) })
+             { <<1, [kind |-> "item", it |-> it, more |-> More(Ext(o.env, ItemBinds(it)))], ItemBinds(it) \ {Wild}>> :
+                 it \in ItemShapes(o.env, u) })
 
 \* the parameters: sequences of distinct names of length 0..2
-ParamSeqs == {<<>>} \cup { <<x>> : x \in Names }
-             \cup { <<q[1], q[2]>> : q \in { r \in Names \X Names : r[1] # r[2] } }
+ParamSeqs == IF Canonical
+             THEN {<<>>} \cup { <<x>> : x \in LeastFresh({}) }
+                  \cup { <<x, y>> : x \in LeastFresh({}), y \in LeastFresh(LeastFresh({})) }
+             ELSE {<<>>} \cup { <<x>> : x \in Names }
+                  \cup { <<q[1], q[2]>> : q \in { r \in Names \X Names : r[1] # r[2] } }
 
 Init == \E ps \in { q \in ParamSeqs : Len(q) <= MaxCost } :
           /\ f = [params |-> ps, body |-> [k |-> "blk", items |-> <<>>, fin |-> More(Ext({}, {ps[j] : j \in DOMAIN ps}))]]
           /\ left = MaxCost - Len(ps)
+          /\ used = IF Canonical THEN {ps[j] : j \in DOMAIN ps} ELSE {}
 Next == LET o == Open(f.body)
         IN /\ o.k # "none"
-           /\ \E c \in Choices(o, left) : /\ f' = [f EXCEPT !.body = Plug(@, c[2])]
-                                          /\ left' = left - c[1]
+           /\ \E c \in Choices(o, used, left) : /\ f' = [f EXCEPT !.body = Plug(@, c[2])]
+                                                /\ left' = left - c[1]
+                                                /\ used' = IF Canonical THEN used \cup c[3] ELSE {}
 
 Complete == Open(f.body).k = "none"
 
@@ -132,7 +160,13 @@ KnownRegion == (Complete /\ ~NestedOrFixed /\ HasMor3(f.body)) =>
                  PrintT(<<"REGION", IF AlgEqSem(f) THEN 1 ELSE 0>>)
 GenSound == (Complete /\ Directed) => WellScoped(Occ(f))
 \* always TRUE: one line per structure
-Emit == Complete => PrintT(<<"BEHAVIOUR", ToJson([t |-> f, nocc |-> Len(Occ(f))])>>)
+\* (with the places where the spelling varies, the cost, and the names in text order: the check picks the
+\* form vectors to replay and one structure per class of structures equal up to a permutation of Names)
+Emit == Complete => PrintT(<<"BEHAVIOUR", ToJson([t |-> f, nocc |-> Len(Occ(f)), slots |-> Slots(f),
+                                                  cost |-> MaxCost - left])>>)
+\* the spellings of each kind of place, once
+EmitForms == (f.body.items = <<>> /\ f.body.fin.k = "more" /\ f.params = <<>>) =>
+               PrintT(<<"FORMS", ToJson([kk \in SlotKinds |-> FormSeq(kk)])>>)
 
 \* the ill-scoped structures of the free space (a sample is shown to the real checker: it must reject them)
 EmitIll == (Complete /\ ~WellScoped(Occ(f))) => PrintT(<<"ILL", ToJson([t |-> f])>>)
